@@ -10,7 +10,11 @@ from .common import PYTHON, ROOT, rng, run_dir, shard_slice, stable_hash
 LEVEL = 'exploration'
 RULE = ('Schematic(obj, placeAndRoute=True) built in a child process (20 s alarm per schematic) for (a) every catalogue block '
         'that is structural, at 3 (quick) / all (thorough) configurations, (b) the storage/clock/FP/fixed-point structural blocks, '
-        '(c) generated netlists inside a harness structural block (gates, adders, muxes, multi-output leaves, registers; chains, '
+        '(b2) every catalogue/storage/clock/FP block as the single CHILD of a harness wrapper, one configuration per distinct port '
+        'signature (optional ports connected or not), '
+        '(c) generated netlists inside a harness structural block (gates, adders, muxes, multi-output leaves, registers, library blocks '
+        'with their optional/multiple ports connected: Add ci/co, Abs inverted, Reg enable/reset, ShiftRight arithmetic, DelayLine, '
+        'Comparator, Swap, counters; chains, '
         'fan-out, register feedback incl. q->own d, edges spanning several columns, one wire on two pins); the object graph '
         '(objs, nets, symbol_matrix) is judged offline. non-trivial = the drawing needed a pass-through or feedback marker, or has '
         'fan-out > 1, or >= 8 instances; distinct by content hash of the case')
@@ -71,6 +75,26 @@ def workload(tier, seed, shard):
             for c in cfgs:
                 if _is_structural(src, r.name, c):
                     cases.append(dict(type='block', src=src, block=r.name, cfg=c))
+    # every library block as a CHILD symbol, one configuration per distinct port signature (optional ports connected or not)
+    from .c11gen import probe
+    for src, lst in (('catalog', catalog.ENTRIES), ('netblocks', netblocks.RECIPES)):
+        for r in lst:
+            sigs = {}
+            cfgs = r.configs(tier)
+            for c in cfgs:
+                try:
+                    seq, ins, outs = probe(src, r.name, c)
+                except Exception:
+                    continue
+                if r.name == 'Stack_ShiftRegister' and c[2]:
+                    continue
+                sigs.setdefault((len(ins), len(outs)), []).append(c)
+            for sig, cs in sorted(sigs.items()):
+                pick = [cs[0], cs[-1]] if len(cs) > 1 else [cs[0]]
+                if tier == 'thorough' and len(cs) > 4:
+                    pick += [cs[len(cs) // 3], cs[2 * len(cs) // 3]]
+                for c in pick[:(2 if len(sigs) > 2 or tier == 'quick' else 4)]:
+                    cases.append(dict(type='child', src=src, block=r.name, cfg=c))
     for i in range(N_NET[tier]):
         rnd = rng(seed, 'C18net', i)
         cases.append(dict(type='net', plan=c18net.gen_netlist(rnd, big=(i % 5 == 4))))
@@ -158,14 +182,14 @@ def run_children(cases, d, limit_s=LIMIT_S, deadline=None):
 # ------------------------------------------------------------------------------------------------ judging
 
 def describe(case):
-    if case['type'] == 'block':
-        return '%s%r' % (case['block'], tuple(case['cfg']) if isinstance(case['cfg'], (list, tuple)) else case['cfg'])
+    if case['type'] in ('block', 'child'):
+        return '%s%s%r' % ('child ' if case['type'] == 'child' else '', case['block'], tuple(case['cfg']) if isinstance(case['cfg'], (list, tuple)) else case['cfg'])
     return 'netlist(%d nodes)' % len(case['plan']['nodes'])
 
 
 def judge(run, case, res):
     run.ev()
-    cls = case['block'] if case['type'] == 'block' else 'netlist'
+    cls = case['block'] if case['type'] == 'block' else ('child:' + case['block'] if case['type'] == 'child' else 'netlist')
     kase = dict((k, v) for k, v in case.items() if k != 'idx')
     if 'harness_error' in res:
         run.inconclusive.append('harness error on %s: %s' % (describe(case), res['harness_error'][:300]))
@@ -196,6 +220,12 @@ def judge(run, case, res):
         run.count('schematics_with_passthrough')
     if st['feedback']:
         run.count('schematics_with_feedback')
+    if feats.get('lib_nodes'):
+        run.count('netlists_with_library_nodes')
+        run.count('netlist_library_optional_ports_connected', feats['lib_optional_ports'])
+    if case['type'] == 'child':
+        run.count('library_blocks_drawn_as_child')
+    run.count('sch_pin_positions_judged', st.get('pin_positions_judged', 0))
     if feats.get('max_span', 0) >= 3:
         run.count('netlists_with_edge_spanning_3_columns')
     if feats.get('self_loops'):
